@@ -1,12 +1,26 @@
 """C09: see DESIGN.md section 5. Collector-core property: theorems in coq/Props/C09.v, tie by lock-step."""
 from props import core
 
-SETUP_KEY = core.SETUP_KEY
-setup = core.setup
+SETUP_KEY = "coq-float"     # the core engine itself is set up by C01 (same machinery); this adds /verif/coq-float
+
+
+def setup():
+    from props import c09f
+    bad = [(n, d) for n, ok, d in c09f.obligations() if not ok]
+    if bad:
+        raise RuntimeError("coq-float: " + str(bad)[:3000])
 
 
 def run(chk, tier, seed):
     core.run_core(chk, "C09", tier, seed)
+    # f64 part: on the dyadic grid the binary64 evaluation of allocation_debt / the wake-up amount is exact and equals
+    # the rational model's value (Flocq; /verif/coq-float, theorems C09F_*)
+    from props import c09f
+    for name, ok, detail in c09f.obligations():
+        chk.obligation(name, ok, detail)
+    chk.trusted.append("f64 part (coq-float): binary64 arithmetic is modelled as exact real arithmetic followed by Flocq's "
+                       "round-to-nearest-even after every operation (overflow / NaN / infinities excluded by the grid bounds, "
+                       "not modelled); axioms (Coq standard library only): " + ", ".join(sorted(a for a in c09f.ALLOWED if "." in a and not a.startswith("Coq."))))
 
 
 def replay(path):
